@@ -28,7 +28,7 @@ SIZES_T = SIZES_Q + [(2, 2), (2, 3), (3, 2), (5, 9), (8, 7), (15, 16), (16, 17),
                      (100, 1), (1, 100), (127, 129), (128, 128), (200, 3), (3, 200), (255, 257), (256, 256), (300, 301),
                      (480, 640), (1, 1500), (1500, 1), (511, 513), (720, 2), (2, 720), (37, 1001), (1001, 37), (640, 480)]
 LAYOUTS = ['C', 'colstride', 'rowstride', 'negrow', 'negcol', 'fortran']
-BACKINGS = ['raw', 'jpg_undecoded', 'jpg_decoded', 'raw_cached_jpg', 'jpgx_undecoded', 'jpgx_decoded']   # jpgx: the existing encoding has the other channel count (mono jpg declared BGR/RGB, colour jpg declared GRAY)
+BACKINGS = ['raw', 'jpg_undecoded', 'jpg_decoded', 'raw_cached_jpg', 'jpgx_undecoded', 'jpgx_decoded', 'blob_jpg', 'blob_png']   # blob_*: Frame.from_blob(file bytes) without dimensions (the REST / image input path), edited in place afterwards if it came back writable   # jpgx: the existing encoding has the other channel count (mono jpg declared BGR/RGB, colour jpg declared GRAY)
 FORMATS = ['GRAY', 'BGR', 'RGB']
 TOPIC_NAMES = ['main', 'other', 'cam2', '_metrics', '_filter', '_hid', 'a_b', 'x']
 
@@ -40,6 +40,8 @@ DATA = {
     'bigint': lambda r: {'n': 2 ** 53 + r.randint(1, 9), 'm': -2 ** 70, 'z': 0},
     'floats': lambda r: {'f': r.random() * 1e-9, 'g': 1e300, 'h': -0.0, 'i': 3.141592653589793, 'j': [0.1, 0.2]},
     'listy': lambda r: {'l': [None, False, 'x', 1, 1.25, {'q': None}], 'k': ''},
+    # str values Python really produces: os.fsdecode() of a file name that is not valid UTF-8 carries lone surrogates (sources put such names into meta.src)
+    'surrogate': lambda r: {'meta': {'src': 'file:///data/cam\udcff\udce9.mp4'}, 'k': '\ud800'},
 }
 
 
@@ -95,6 +97,16 @@ def build_frame(Frame, fmt, size, lay, rw, backing, data, rs):
     if fmt is None:
         return Frame(data), None, None
     pix = make_pixels(fmt, size, rs)
+    if backing in ('blob_jpg', 'blob_png'):
+        ok, buf = cv2.imencode('.jpg' if backing == 'blob_jpg' else '.png', pix)
+        blob = bytes(buf)
+        f = Frame.from_blob(blob, data, None, None, fmt) if fmt != 'BGR' else Frame.from_blob(blob, data)
+        img = f.image
+        if img.flags.writeable:
+            img[...] = 255 - img          # a filter drawing on the picture it loaded; whatever encoding the frame may have cached is stale now
+            return f, img.copy(), None
+        dec = cv2.imdecode(np.frombuffer(blob, np.uint8), cv2.IMREAD_COLOR if fmt != 'GRAY' else 0)
+        return f, dec, (blob if backing == 'blob_jpg' else None)
     if backing in ('jpgx_undecoded', 'jpgx_decoded'):
         src = make_pixels('BGR' if fmt == 'GRAY' else 'GRAY', size, rs)
         ok, buf = cv2.imencode('.jpg', src)
@@ -196,7 +208,7 @@ def gen_exhaustive(tier):
         for lay in LAYOUTS:
             for rw in (True, False):
                 for backing in BACKINGS:
-                    if backing.startswith('jpg') and (lay != 'C' or rw):
+                    if backing.startswith(('jpg', 'blob')) and (lay != 'C' or rw):
                         continue   # jpg-backed frames have no array layout / are read-only by construction
                     if backing == 'raw_cached_jpg' and rw:
                         continue   # a cached jpg exists only on read-only pixels
